@@ -720,3 +720,105 @@ func chessOps(o *Out, seed uint64, n int, tier string, corpusPath string) {
 		o.Stat("perft")
 	}
 }
+
+// edgeOps: for every square of the black (resp. white) king and every enemy piece kind on every square from which that kind
+// geometrically attacks or nearly attacks it, one `gen` operation: check detection and legal moves against the spec.
+// Exhaustive over (king square, attacker kind, attacker square, colour) for lone attackers.
+func edgeOps(o *Out, seed uint64, n int) {
+	rng := NewRng(seed)
+	kinds := "PNBRQK"
+	count := 0
+	for ks := 0; ks < 64; ks++ {
+		for ki, kc := range kinds {
+			for as := 0; as < 64; as++ {
+				if as == ks {
+					continue
+				}
+				df, dr := abs(as%8-ks%8), abs(as/8-ks/8)
+				near := false
+				switch kc {
+				case 'P':
+					near = df == 1 && dr == 1
+					if as/8 == 0 || as/8 == 7 {
+						near = false
+					}
+				case 'N':
+					near = (df == 1 && dr == 2) || (df == 2 && dr == 1)
+				case 'K':
+					near = df <= 2 && dr <= 2 && (df == 2 || dr == 2) // kings two apart: opposition
+				case 'B':
+					near = df == dr
+				case 'R':
+					near = df == 0 || dr == 0
+				case 'Q':
+					near = df == dr || df == 0 || dr == 0
+				}
+				if !near {
+					continue
+				}
+				// thin out the sliders in the quick tier
+				if (kc == 'B' || kc == 'R' || kc == 'Q') && n < 100000 && rng.Intn(4) != 0 {
+					continue
+				}
+				for col := 0; col < 2; col++ {
+					var board [64]byte
+					kingCh, attCh, okingCh := byte('k'), byte(kc), byte('K')
+					if col == 1 {
+						kingCh, attCh, okingCh = 'K', byte(kc)+32, 'k'
+					}
+					board[ks] = kingCh
+					if kc == 'K' {
+						board[as] = okingCh
+					} else {
+						board[as] = attCh
+						// the attacker's king far away from both
+						placed := false
+						for _, c := range []int{0, 7, 56, 63, 27, 36} {
+							if c != ks && c != as && abs(c%8-ks%8) > 1 || abs(c/8-ks/8) > 1 {
+								if board[c] == 0 {
+									board[c] = okingCh
+									placed = true
+									break
+								}
+							}
+						}
+						if !placed {
+							continue
+						}
+					}
+					var sb strings.Builder
+					for rank := 7; rank >= 0; rank-- {
+						empty := 0
+						for file := 0; file < 8; file++ {
+							c := board[rank*8+file]
+							if c == 0 {
+								empty++
+								continue
+							}
+							if empty > 0 {
+								fmt.Fprintf(&sb, "%d", empty)
+								empty = 0
+							}
+							sb.WriteByte(c)
+						}
+						if empty > 0 {
+							fmt.Fprintf(&sb, "%d", empty)
+						}
+						if rank > 0 {
+							sb.WriteByte('/')
+						}
+					}
+					side := "b"
+					if col == 1 {
+						side = "w"
+					}
+					fen := fmt.Sprintf("%s %s - - 0 1", sb.String(), side)
+					o.Run("gen " + hexOf(fen))
+					o.Stat("edge_positions_" + string(kinds[ki]))
+					count++
+				}
+			}
+		}
+	}
+	_ = count
+}
